@@ -81,6 +81,28 @@ def run(repo: Repo, tier: str) -> Report:
         rep.ob("R-READONLY", s.file, n, "the smoother never stores into its input series", not bad,
                f"`{norm_stmt(bad[0])}` overwrites the caller's cells (placeholders at masked cells are lost for any later call on the same buffer)" if bad else "",
                bad[0] if bad else f"{n}: stores into inputs")
+    # ---- the series handed to the solver is the input or its sanitised copy: any re-binding of the series name keeps the valid cells as they are
+    for n in SMOOTHERS + HELPERS:
+        s = fam[n]
+        if s.mask is None:
+            continue
+        yname, mname = s.mask["series"], s.mask["name"]
+        for st in ast.walk(s.k.node):
+            if not (isinstance(st, ast.Assign) and len(st.targets) == 1 and isinstance(st.targets[0], ast.Name) and st.targets[0].id == yname):
+                continue
+            v = st.value
+            okw = False
+            if isinstance(v, ast.Call) and ast.unparse(v.func).split(".")[-1] == "where" and len(v.args) == 3:
+                c, a, b = v.args
+                sel = False
+                if isinstance(c, ast.Compare) and len(c.ops) == 1:
+                    l, r, op = c.left, c.comparators[0], c.ops[0]
+                    sel = (isinstance(l, ast.Name) and l.id == mname and isinstance(r, ast.Constant) and r.value == 0 and isinstance(op, (ast.Gt, ast.NotEq))) or \
+                          (isinstance(r, ast.Name) and r.id == mname and isinstance(l, ast.Constant) and l.value == 0 and isinstance(op, (ast.Lt, ast.NotEq)))
+                okw = sel and isinstance(a, ast.Name) and a.id == yname and isinstance(b, ast.Constant) and isinstance(b.value, (int, float)) and b.value == b.value \
+                    and abs(b.value) != float("inf")
+            rep.ob("R-MASK", s.file, n, "a re-binding of the series keeps every valid cell and replaces only masked cells by a finite constant", okw,
+                   f"`{norm_stmt(st)}`: required `{yname} = where({mname} > 0, {yname}, <finite constant>)`; any other selection changes or drops observations", st)
     # ---- 4. minimum valid count guard + pass-through
     for n in SMOOTHERS:
         s = fam[n]
